@@ -381,6 +381,74 @@ def big_wallet_crash(rec, n):
     return len(rec.snaps), bad
 
 
+def interrupted_saves(rec0, n=60):
+    """a save cut short by something that UNWINDS THE STACK instead of killing the process: Ctrl-C (the normal way to stop the
+    miner, which saves at start-up and after every found block) or a full disk, raised at every write boundary of the save in
+    turn.  Whatever the unwinding runs (finally clauses, context managers), wallet.json is afterwards the complete previous
+    or the complete new wallet"""
+    import errno
+    from skepticoin import wallet as W
+    keys = [world.Key(0x7400 + i) for i in range(n)]
+    bad = []
+    npoints = 0
+
+    class Interrupting(crashfs.Recorder):
+        def __init__(self, watch, at, exc):
+            crashfs.Recorder.__init__(self, watch)
+            self.at, self.exc, self.count, self.fired = at, exc, 0, None
+
+        def snap(self, label):
+            if self.active and self.fired is None:
+                if self.count == self.at:
+                    self.fired = label
+                    raise self.exc
+                self.count += 1
+    try:
+        for exc_name, mk in (('KeyboardInterrupt', lambda: KeyboardInterrupt()), ('OSError(ENOSPC)', lambda: OSError(errno.ENOSPC, 'No space left on device'))):
+            at = 0
+            while True:
+                for fn in ('wallet.json', 'wallet.json.new'):
+                    if os.path.exists(fn):
+                        os.remove(fn)
+                w = new_wallet(keys)
+                rec0.active = False
+                crashfs.install(W, rec0)
+                W.save_wallet(w)
+                old = wstate(w)
+                w.get_annotated_public_key('x')
+                new = wstate(w)
+                rec = Interrupting(['wallet.json', 'wallet.json.new'], at, mk())
+                crashfs.install(W, rec)
+                try:
+                    W.save_wallet(w)
+                except BaseException:
+                    pass
+                rec.active = False
+                if rec.fired is None:
+                    break                      # the save has fewer boundaries than `at`: all of them were tried
+                npoints += 1
+                tr = (('interrupted-save', exc_name, rec.fired),)
+                try:
+                    with open('wallet.json') as f:
+                        p = parse_saved(f.read())
+                except FileNotFoundError:
+                    bad.append(('interrupted-save-file-missing', "%s raised at %s: wallet.json does not exist afterwards" % (exc_name, rec.fired), tr))
+                    at += 1
+                    continue
+                if p is None:
+                    bad.append(('interrupted-save-file-corrupt', "%s raised at %s: wallet.json cannot be loaded afterwards" % (exc_name, rec.fired), tr))
+                elif p not in (old, new):
+                    bad.append(('interrupted-save-file-mixed', "%s raised at %s: wallet.json is neither the previous nor the new wallet" % (exc_name, rec.fired), tr))
+                at += 1
+    finally:
+        crashfs.install(W, rec0)
+        rec0.active = True
+    best = {}
+    for k, what, tr in bad:
+        best.setdefault(k, (k, what, tr))
+    return npoints, list(best.values())
+
+
 def receive_script_crashes(rec0):
     """the command that hands out a receiving address (skepticoin-receive), killed at every file-operation and output
     boundary, followed by a second invocation on whatever the first left on disk: an address the user has SEEN must not
@@ -516,7 +584,9 @@ def run(ctx):
     nbig, bad3 = big_wallet_crash(rec, 100 if ctx.quick else 400)
     nrc, bad4 = receive_script_crashes(rec)
     ctx.cov['receive_command_crash_points'] = nrc
-    bad3 = bad3 + bad4
+    nint, bad5 = interrupted_saves(rec)
+    ctx.cov['interrupted_save_points'] = nint
+    bad3 = bad3 + bad4 + bad5
     for key, what, trace in bad + bad2 + bad3:
         ctx.violation(key, "%s; operations %s" % (what, [' '.join(map(str, o)) for o in trace]), {'trace': [list(o) for o in trace]})
     ctx.cov.update({
@@ -544,6 +614,9 @@ def replay(data, ctx):
         return [(k, w) for k, w, _ in bad]
     if trace and trace[0][0] == 'receive-script':
         n, bad = receive_script_crashes(rec)
+        return [(k, w) for k, w, _ in bad]
+    if trace and trace[0][0] == 'interrupted-save':
+        n, bad = interrupted_saves(rec)
         return [(k, w) for k, w, _ in bad]
 
     class Rnd:
